@@ -770,24 +770,36 @@ def _serve_socket_threaded(
     # Drive accept on a short timeout and check a shutdown flag instead.
     sock.settimeout(0.5)
 
-    def _close_listener_if_idle() -> None:
+    # ``Timer.cancel()`` cannot stop a callback that has already started and is
+    # waiting for ``state_lock``.  Every arm/cancel bumps the generation, and a
+    # callback acts only if it still belongs to the current one — otherwise a
+    # timer that fired at the very moment a client connected would shut the
+    # worker down right after that client (and drop the reference to the timer
+    # armed since).
+    timer_generation = 0
+
+    def _close_listener_if_idle(generation: int) -> None:
         nonlocal timer, shutdown_requested
         with state_lock:
+            if generation != timer_generation:
+                return
             timer = None
             if conn_count != 0:
                 return
             shutdown_requested = True
 
     def _arm_timer_locked(seconds: float) -> None:
-        nonlocal timer
+        nonlocal timer, timer_generation
         if timer is not None:
             timer.cancel()
-        timer = threading.Timer(seconds, _close_listener_if_idle)
+        timer_generation += 1
+        timer = threading.Timer(seconds, _close_listener_if_idle, args=(timer_generation,))
         timer.daemon = True
         timer.start()
 
     def _cancel_timer_locked() -> None:
-        nonlocal timer
+        nonlocal timer, timer_generation
+        timer_generation += 1
         if timer is not None:
             timer.cancel()
             timer = None
